@@ -37,6 +37,13 @@ Dags == { Lib("Nano", Perm(<< Cell("top", << I("a", "mid", <<1, 2>>, FALSE, 90),
              : p \in { <<1, 2, 3, 4, 5>>, <<5, 3, 1, 2, 4>>, <<2, 3, 4, 5, 1>> } }
     \cup { Lib("Micro", << Cell("d", << I("i", "c", <<0, 0>>, FALSE, -1) >>, <<>>, <<>>), Cell("c", << I("i", "b", <<0, 0>>, FALSE, -1) >>, <<>>, <<>>),
                           Cell("b", << I("i", "a", <<0, 0>>, FALSE, -1) >>, <<>>, <<>>), Cell("a", <<>>, << E(1, "Drawing", "rect", R1, 0, "") >>, <<>>) >>) }
+\* vocabulary: the schema has a separate place for a library's name (the domain); a cell NAME that happens to start with the
+\* library's name and a dot, or that looks like a path, is a name like any other (and a different cell from its suffix)
+LeafQ == [Leaf EXCEPT !.name = "protolib.leaf"]
+Qualified == { Lib("Nano", Perm(<< Cell("top", << I("a", "protolib.leaf", <<1, 2>>, FALSE, -1), I("b", "leaf", <<3, 4>>, TRUE, 90) >>, <<>>, <<>>),
+                                  LeafQ, Cell("leaf", <<>>, << E(2, "Pin", "rect", R1, 0, "") >>, <<>>) >>, p)) : p \in Perms3 }
+        \cup { Lib("Nano", << [Leaf EXCEPT !.name = "protolib.only"], Cell("protolib.top", << I("a", "protolib.only", <<0, 0>>, FALSE, -1) >>, <<>>, <<>>) >>),
+               Lib("Nano", << [Leaf EXCEPT !.name = "lib/sub.cell"], Cell("t", << I("a", "lib/sub.cell", <<0, 0>>, FALSE, -1) >>, <<>>, <<>>) >>) }
 ShapeCases == { Lib(u, << Cell("s", <<>>, es, <<>>) >>) : u \in {"Micro", "Nano", "Angstrom"},
                   es \in { <<>>, << E(1, "Drawing", "rect", R2, 0, "") >>, << E(2, "Pin", "polygon", Pg, 0, "N") >>,
                            << E(1, "Pin", "path", Pa, 7, "p") >>,
@@ -87,7 +94,7 @@ RandLib(i) == LET cs == << RandCellP("r_top", <<"r_a", "r_b", "r_c", "r_leaf">>)
                   pm == RandomElement(Perms5)
               IN Lib(RandomElement({"Micro", "Nano", "Angstrom"}), [k \in 1..5 |-> cs[pm[k]]])
 RandLibs == { RandLib(i) : i \in 1..NRand }
-Libs == InstCases \cup Dags \cup ShapeCases \cup AbsCases \cup PicoCase \cup RandLibs
+Libs == InstCases \cup Dags \cup Qualified \cup ShapeCases \cup AbsCases \cup PicoCase \cup RandLibs
 Init == c \in Libs
 Next == UNCHANGED c
 Spec == Init /\ [][Next]_c
